@@ -7,6 +7,24 @@ def _c20_case(c):
         return {"op": "P", "input": unhex(p[1])}
     if p[0] == "R":
         return {"op": "R", "registry": unhex(p[1]), "repository": unhex(p[2]), "input": unhex(p[3])}
+    if p[0] in ("W", "F"):
+        return {"op": "F", "registry": unhex(p[1]), "repository": unhex(p[2]), "reference": unhex(p[3])}
+    if p[0] == "T":
+        return {"op": "T", "plain": "true" if p[1] == "1" else "false", "registry": unhex(p[2]), "repository": unhex(p[3]),
+                "input": unhex(p[4]), "dsts": "\x00".join(unhex(x) for x in p[6:])}
+    if p[0] == "N":
+        return {"op": "N", "kind": p[1], "input": unhex(p[2]), "reference": unhex(p[3])}
+    if p[0] == "E":
+        return {"op": "E", "kind": p[1], "plain": "true" if p[2] == "1" else "false", "registry": unhex(p[3]),
+                "input": unhex(p[4]), "n": unhex(p[5]) or "0"}
+    if p[0] == "D":
+        return {"op": "D", "kind": p[1], "plain": "true" if p[2] == "1" else "false", "registry": unhex(p[3]),
+                "repository": unhex(p[4]), "reference": unhex(p[5]), "input": unhex(p[6]), "n": unhex(p[7]) or "0"}
+    if p[0] == "Q":
+        return {"op": "Q", "kind": p[1], "plain": "true" if p[2] == "1" else "false", "registry": unhex(p[3]),
+                "repository": unhex(p[4]), "reference": unhex(p[5]), "input": unhex(p[6])}
+    if p[0] == "G":
+        return {"op": "G", "input": unhex(p[1])}
     if p[0] == "V":
         return {"op": "V", "kind": p[1], "input": unhex(p[2])}
     if p[0] == "U":
@@ -22,7 +40,7 @@ def _c20_case(c):
 LINK = {
     "name": "C20link",
     "proof_files": [],
-    "model_files": ["Generated/GC20.v", "Model/Reference.v", "Model/RefOps.v"],
+    "model_files": ["Generated/GC20.v", "Model/NetURL.v", "Model/Reference.v", "Model/RefOps.v", "Model/RefURLGen.v"],
     "extract": "XC20.v",
     "ml_main": "c20_main.ml",
     "harness": "c20link",
@@ -31,23 +49,24 @@ LINK = {
 
 CONFIG = {
     "properties_file": "Properties/C20.v",
-    "proof_files": ["Base/Prelude.v", "Base/Regex.v", "Proofs/Reference.v", "Proofs/RefOps.v", "Proofs/RefURL.v", "Proofs/RefGrammar.v"],
-    "model_files": ["Generated/GC20.v", "Model/Reference.v", "Model/RefOps.v"],
+    "proof_files": ["Base/Prelude.v", "Base/Regex.v", "Proofs/Reference.v", "Proofs/RefOps.v", "Proofs/RefURL.v", "Proofs/RefGrammar.v", "Proofs/NetURL.v", "Proofs/RefDescOps.v", "Proofs/RefURLGen.v"],
+    "model_files": ["Generated/GC20.v", "Model/NetURL.v", "Model/Reference.v", "Model/RefOps.v", "Model/RefURLGen.v"],
     "extract": "XC20.v",
     "ml_main": "c20_main.ml",
     "harness": "c20",
     "case_to_replay": _c20_case,
     "parts": [LINK],
     "assumptions": [
-        "registry validity is url.ParseRequestURI (net/url): a parameter valid_registry of the theorems. The only fact about it the URL theorems use is reg_clean: an accepted registry is non-empty and contains none of controls/space # % / ? @ \\ DEL; the harness checks this on every reference the implementation accepts (oracle registry-charset). Acceptance itself is judged only on authorities a conservative recogniser decides (others, e.g. bracketed hosts, are toolchain-relative: go1.23 and go1.26 differ there)",
-        "go-digest v1.0.0 Digest.Validate (pinned; the harness refuses to run against another version) is hand-modelled: algorithm in the fixed table sha256/384/512 AND linked into the binary (crypto.Hash.Available), lower-case hex of the exact length. The link set is the parameter avail of model and theorems (all theorems hold for every avail); it is exercised in two builds: all three hashes linked (cmd/c20) and crypto/sha256 only (cmd/c20link). A binary that links no hash at all accepts no digest reference (theorems still hold; not run)",
+        "net/url of go1.26.8 (ParseRequestURI authority path: parse, parseAuthority, parseHost, validOptionalPort, unescape host/zone, shouldEscape table; QueryEscape/QueryUnescape, Values.Encode for the keys used) and netip.ParseAddr (IPv6 literals, embedded IPv4, zones) are hand-modelled in Model/NetURL.v and tied by correspondence only (ValidateRegistry on ~1.4e5 / 2.5e6 authorities quick / thorough: exhaustive to length 4/5 over 18 symbols, all 256 bytes in 7 templates, generated reg-names / ports / IP literals / escapes; no registry is unjudged). The harness refuses to run on another toolchain. The theorems about what ValidateRegistry accepts hold for every behaviour of netip.ParseAddr (parameter ip6_ok); the model rejects at once when the registry contains '?', '/' or '@'; that shortcut is proved equal to the step-by-step ParseRequestURI rendering (C20_registry_shortcuts_sound) in which only validUserinfo / unescaping of user-info and path stay abstract",
+        "go-digest v1.0.0 Digest.Validate is hand-modelled: algorithm in the fixed table sha256/384/512 AND linked into the binary (crypto.Hash.Available), lower-case hex of the exact length. Which source that is, is pinned: the harness refuses another version and go.sum's content hash is regenerated into the model (C20_go_digest_pinned). The link set is the parameter avail of model and theorems; it is exercised in two builds: all hashes linked (cmd/c20) and crypto/sha256 only (cmd/c20link). A binary that links no hash accepts no digest reference (theorems still hold; not run)",
         "Go regexp semantics for the ASCII-only, fully anchored expressions used here = Base/Regex.v Lang (proved equal to the derivative matcher)",
-        "generic URL syntax (RFC 3986 section 3) = Model url_split; compared with net/url's parse of every URL built in the run",
-        "Repository clauses quantify over bases that are themselves valid (a literal &Repository{Reference: ...} is not validated by the library): invalid bases, bases with an empty port and a base Reference field are generated and compared with the model for ParseReference but not judged by the oracle / not driven through net/http",
-        "out of scope: URLs built from descriptors (Fetch/Delete/Exists use desc.Digest unvalidated), catalog/base URL, tag-list paging parameters, mount from a caller-supplied repository name that is not a valid repository, manifests with a subject (client-side referrers indexing sends further requests)",
+        "generic URL syntax (RFC 3986 section 3) = Model url_split; url.ParseQuery restricted to '&'/'=' splitting + QueryUnescape = Model parse_query; both compared with net/url on every URL / request of the run",
+        "fmt.Sprintf restricted to the verb %s and strings.Join = Model/RefURLGen.v sprintf_s / join_sep (the URL builders assembled from the string literals of registry/remote/url.go are what the correspondence runs; proved equal to the closed forms of the theorems)",
+        "net/http between the built URL string and the recorded request is not modelled: requests are compared through URL.String() (identity on every URL the theorems cover); a base whose registry has an empty port ('reg:') is accepted by ParseReference but net/http strips the empty port from the request URL, so such bases are exercised for ParseReference only; literal &Repository{Reference: ...} values with an invalid base are outside the quantifier (the constructors NewRepository / NewRegistry+Repository validate: C20_new_repository_base_ok) and are compared with the model for ParseReference only",
+        "out of scope: a descriptor whose Digest is not a valid digest (Fetch/Delete build the URL from desc.Digest unvalidated: compared with the model on URL-safe strings, not judged), mount from a source repository name that is not a valid repository (not judged), manifests with a subject (client-side referrers indexing sends further requests), the second and later pages of listings (their URL comes from the server's Link header), blob upload after the initial POST (Location comes from the server)",
     ],
-    "level_text": "Coq theorems for all strings, all registry predicates and all sets of linked hash implementations: parse = independent grammar (iff) with the component rules themselves characterised (tag rule, repository-name rule as an inductive grammar, digest rule: C20_tag_grammar, C20_repository_grammar, C20_digest_grammar); format/parse round-trip; agreement of the six Repository reference forms incl. the fully qualified tag@digest form; rejection of other registries/repositories at full strength (a string with a path in it is accepted only if it is base-registry/base-repository followed by ':' or '@': C20_repo_rejects_other_paths; the pre-fix code is refuted); URL slot at full strength under the generic URL syntax (scheme, authority = exactly the host without user-info, path segments exactly v2/<repository components>/<kind>/<reference>, no query, no fragment: C20_url_exact, C20_url_exact_noref, C20_op_requests_exact_paths) given the character-class fact reg_clean about accepted registries, which the oracle checks on every accepted reference (without it the statement is refuted: C20_url_exact_unconstrained_registry_refuted). Stated about a model whose regular expressions are re-translated from registry/reference.go on every run, tied to the code by an exhaustive small-scope (all strings to length 5/6 over 11 symbols; repository rule exhaustively to length 7/8 over its own alphabet) + random + mutation differential run in two link configurations and an independent oracle",
-    "level_note": "oracle only (no theorem): 'the registry is a URL authority' itself (net/url is a parameter; the theorems use only reg_clean); error identity (errors.Is ErrInvalidReference); the two query-carrying URL builders (referrers artifactType, blob mount) -- oracle url-query, not modelled. Operations are modelled for subject-less manifests in all three referrers-capability states and through both the store and the Repository wrappers. go-digest validation hand-modelled (version pinned at run time); Go regexp semantics = Base/Regex.v denotation",
-    "technique": "machine-checked proof in Coq (regex derivative matcher proved correct; grammar equivalence; round-trip) + translator-regenerated definitions + model/implementation correspondence",
-    "explanation": "theorems over all strings about the model of ParseReference/String/Repository.ParseReference/URL builders whose regexes are regenerated from registry/reference.go; exhaustive small-scope + random differential run of model vs implementation; independent grammar/round-trip/net-url oracle",
+    "level_text": "Coq theorems for all strings and all sets of linked hash implementations, about a model that now includes the registry validator itself (net/url + netip of go1.26.8): parse = independent grammar (iff) with every component characterised (C20_tag_grammar, C20_repository_grammar, C20_digest_grammar, registry: C20_registry_regname_iff + C20_registry_bracket_iff = complete grammar of accepted registries modulo netip.ParseAddr, C20_registry_clean: no user-info / query / fragment / escape can hide in an accepted registry); format/parse round-trip for parsed references and for every Reference value that passes Validate (C20_validate_roundtrip); Repository.ParseReference characterised exactly (C20_repo_parse_iff_grammar) incl. agreement of the six forms and rejection of every other path (pre-fix code refuted); URL slot at full strength under RFC 3986 splitting with NO hypothesis about the registry left (C20_url_exact_go / _full, C20_op_requests_exact_paths_go); the query-carrying builders (referrers artifactType, blob mount: C20_url_referrers_at_exact, C20_url_mount_exact) and QueryEscape/ParseQuery round trips (C20_query_escape_roundtrip, C20_parse_query_encode) for all byte strings; every descriptor-driven operation (manifest/blob Fetch, Delete, Referrers, Mount, Push, Tags with setQueryParams paging) and Registry.Ping / Repositories: one request, documented method, exact slot, query decoding to exactly the documented parameters (C20_desc_op_requests_exact, C20_reg_op_requests_exact); every history of calls on a Repository stays in the base repository (C20_session_in_base), and so do oras.Tag / oras.TagN (content.go) for arbitrary source / destination strings (C20_oras_tag_in_base, C20_oras_tag_forms_agree); every Repository the constructors hand out has a valid base (C20_new_repository_base_ok, C20_registry_repository_base_ok). Tie: regexes, URL-builder literals, separators and the go-digest pin are regenerated from the Go source on every run (kinds regex, funcstrlits, gosumhash; the assembled builders are proved equal to the closed forms: C20_generated_builders_agree), 54 anchors; exhaustive small-scope + random + mutation differential run of model vs implementation on 14 case kinds (P R V G F W U Q O D T N E A) in two link configurations with coverage floors, per-operation watchdog and request cap; independent oracle (hand recognisers, ground truth by construction, net/url's own parse of every URL / query)",
+    "level_note": "correspondence only (hand model, no translator): net/url host parsing + netip.ParseAddr + QueryEscape (Model/NetURL.v, toolchain pinned), go-digest Validate (version and go.sum hash pinned), the request sequences of the operations (anchored). Oracle only (no theorem): error identity (errors.Is ErrInvalidReference). Operations are modelled for subject-less manifests in all three referrers-capability states, through the stores and the Repository wrappers; listings for their first page. Go regexp semantics = Base/Regex.v denotation",
+    "technique": "machine-checked proof in Coq (regex derivative matcher proved correct; grammar equivalences; round-trips; RFC 3986 splitting of every built URL; induction over call histories) + translator-regenerated definitions (regexes, URL-builder literals, dependency pin) + model/implementation correspondence",
+    "explanation": "theorems over all strings about the model of ParseReference / ValidateRegistry (net/url + netip) / String / Validate / Repository.ParseReference / all URL builders / reference- and descriptor-driven operations / constructors, with regexes and URL literals regenerated from the Go source; exhaustive small-scope + random differential run of model vs implementation in two link configurations; independent grammar / round-trip / net-url oracle",
 }
